@@ -28,12 +28,15 @@ def sched_chain(rng, coin, shape):
     cb = gen.ChainBuilder(rng, coin)
     uid = [1]
     kinds = gen.STD_KINDS_BTC if COINS[coin].bitcoin_rules else gen.STD_KINDS_FORK
+    # a few scripts recur many times, interleaved with unique ones: state shared between evaluation tasks
+    # (memo / cache keyed too coarsely) only shows when the same script is evaluated by several workers
+    hot = [gen.std_script(rng, coin, k) for k in (kinds[:6] if len(kinds) >= 6 else kinds)]
     for h, (ntx, nout) in enumerate(shape):
         txs = []
         for ti in range(ntx):
             outs = []
             for _ in range(nout if ti % 3 == 0 else max(1, nout // 10)):
-                outs.append(TxOut(uid[0], gen.std_script(rng, coin, rng.choice(kinds))))
+                outs.append(TxOut(uid[0], rng.choice(hot) if rng.random() < 0.35 else gen.std_script(rng, coin, rng.choice(kinds))))
                 uid[0] += 1
             t = Tx(h, [TxIn(rbytes(rng, 32), 0, b"", 0xFFFFFFFF)], outs, ti + 1)
             txs.append(t)
